@@ -78,6 +78,31 @@ def run(chk):
                     chk.fail("ISVMachine.transform is not the channel offset U x of the array's UBM statistics", ctx)
             except Exception as e:
                 chk.fail("ISVMachine.transform raises %r" % (e,), ctx)
+            # a single frame given as a plain feature vector (acc_stats accepts it) is a legal probe as well
+            try:
+                tr1 = np.asarray(m.transform(arrays[0][0]))
+                want_1 = np.asarray(m.estimate_ux([ubm.acc_stats(arrays[0][0])]))
+                if not (tr1.shape == want_1.shape and np.allclose(tr1, want_1, rtol=1e-12, atol=1e-14)):
+                    chk.fail("ISVMachine.transform of one frame given as a vector is not the channel offset U x of that frame's UBM statistics", dict(ctx, frame=hexlist(arrays[0][0])))
+            except Exception as e:
+                chk.fail("ISVMachine.transform of a single frame given as a vector raises %r" % (e,), ctx)
+        # ---- fractional / soft counts: statistics whose occupancies do not add up to the frame count t (the normalisation is by t)
+        kf = r.choice([0.37, 1.6])
+        probe_f = []
+        for p_ in probe:
+            q_ = copy.deepcopy(p_)
+            q_.n, q_.sum_px, q_.sum_pxx = np.asarray(p_.n) * kf, np.asarray(p_.sum_px) * kf, np.asarray(p_.sum_pxx) * kf
+            probe_f.append(q_)
+        ux_f = np.asarray(m.estimate_ux(probe_f))
+        n_f = np.repeat(sum(np.asarray(q_.n) for q_ in probe_f), D)
+        F_f = sum(np.asarray(q_.sum_px).flatten() for q_ in probe_f)
+        t_f = sum(int(q_.t) for q_ in probe_f)
+        want_f = float(np.sum((cm - ubm.means.flatten()) / sig * (F_f - n_f * (ubm.means.flatten() + ux_f)))) / t_f
+        got_f = float(m.score(model, probe_f))
+        chk.count(1, key=("fractional", kind))
+        if not abs(got_f - want_f) <= 1e-9 * max(1.0, abs(want_f)):
+            chk.fail("with fractional counts (sum of occupancies %.4g, %d frames) the score %.12g is not the linear score normalised by the number of frames %.12g"
+                     % (float(n_f.sum() / D), t_f, got_f, want_f), dict(ctx, probe=fa.dump_stats(probe_f), count_scale=kf))
         # inputs untouched by scoring
         # ---- correspondence
         sc = max(1.0, abs(score))
